@@ -369,17 +369,20 @@ End C08.
 
 (** ------------------------------------------------------------------ non-vacuity *)
 (** Concrete runs with the guarded reference libc of PrintProofs.v (it satisfies [LibcPrintSpec]:
-    [guarded_libc_spec]).  The tree ["aaa…a" (300 bytes), 1.5, -7] prints to 312 bytes, more than the
-    256-byte default buffer: request 1 is the initial buffer, request 2 the growth inside
+    [guarded_libc_spec]).  The tree ["aaa…a" (default buffer size + 44 bytes), 1.5, -7] prints to more bytes than the
+    default buffer holds: request 1 is the initial buffer, request 2 the growth inside
     print_string_ptr (ensure), request 3 the final shrink-to-fit of print.  *)
 From CJ Require Import LibcNum LibcPrint ParseEntry.
 
+(* the string is longer than the default print buffer WHATEVER its size is in the source under test, so the run
+   always consists of the same three requests *)
+Definition nvf_len : nat := Z.to_nat c_DEFAULT_BUFFER_SIZE + 44.
 Definition nvf_tree : node :=
   Node c_cJSON_Array None 0 (S754_zero false) None
-    [ Node c_cJSON_String (Some (repeat 97 300)) 0 (S754_zero false) None [];
+    [ Node c_cJSON_String (Some (repeat 97 nvf_len)) 0 (S754_zero false) None [];
       Node c_cJSON_Number None 1 (S754_finite false 6755399441055744 (-52)) None [];
       Node c_cJSON_Number None (-7) (S754_finite true 7881299347898368 (-50)) None [] ].
-Definition nvf_text : bytes := [91; 34] ++ repeat 97 300 ++ [34; 44; 49; 46; 53; 44; 45; 55; 93].
+Definition nvf_text : bytes := [91; 34] ++ repeat 97 nvf_len ++ [34; 44; 49; 46; 53; 44; 45; 55; 93].
 
 (* print with the k-th request (1-based, 0 = none) failing; fresh memory is 0xA5 *)
 Definition nvf_print (hr : bool) (k : nat) : res print_result :=
